@@ -52,8 +52,9 @@ num_el["mixc"] = st.one_of(st.integers(-4, 6), V.small_floats, V.complexes)
 @st.composite
 def operand_case(draw, tier="quick"):
     fam = draw(st.sampled_from(["num", "num", "num", "str", "strint", "date_date", "date_td", "date_int", "exact", "bytes", "datetime_td"]))
-    big = tier == "thorough" and draw(st.integers(0, 14)) == 0
-    n = draw(st.integers(50, 200)) if big else draw(st.one_of(st.integers(0, 8), st.sampled_from([0, 1, 2])))
+    big = draw(st.integers(0, 14 if tier == "thorough" else 29)) == 0
+    # mostly short; now and then just past the sizes at which implementations like to switch strategy (64 / 65, 50..200)
+    n = draw(st.integers(50, 200) if tier == "thorough" else st.integers(63, 70)) if big else draw(st.one_of(st.integers(0, 8), st.sampled_from([0, 1, 2])))
     if fam == "num":
         ka, kb = draw(st.sampled_from(list(num_el))), draw(st.sampled_from(list(num_el)))
         ea, eb = num_el[ka], num_el[kb]
